@@ -189,8 +189,21 @@ let handle_num words =
     if Numeric.mode_bits_match c (big_n pat) (big_n v) then "1" else "0"
   | _ -> "badcase"
 
+(* ---- glob ci pattern subjects : code points, dot-separated; subjects comma-separated; "-" = empty ---- *)
+let cps s = if s = "-" then [] else Stdlib.List.map (fun x -> nat_of_int (int_of_string x)) (split_on '.' s)
+let show_cps l = if l = [] then "-" else String.concat "." (Stdlib.List.map (fun c -> string_of_int (int_of_nat c)) l)
+let handle_glob words =
+  match words with
+  | [ci; pat; subjects] ->
+    let p = cps pat in
+    let text = match Glob.glob_text p with
+      | None -> "unsup" | Some None -> "never" | Some (Some t) -> show_cps t in
+    let codes = Stdlib.List.map (fun s -> string_of_int (int_of_nat (Glob.glob_match (ci = "1") p (cps s)))) (list_of subjects) in
+    text ^ " " ^ String.concat "" codes
+  | _ -> "badcase"
+
 let handlers : (string * (string list -> string)) list ref =
-  ref [ ("xread", handle_xread); ("xargs", handle_xargs); ("xrepl", handle_xrepl); ("xnorm", handle_xnorm); ("walk", handle_walk); ("expr", handle_expr); ("num", handle_num) ]
+  ref [ ("xread", handle_xread); ("xargs", handle_xargs); ("xrepl", handle_xrepl); ("xnorm", handle_xnorm); ("walk", handle_walk); ("expr", handle_expr); ("num", handle_num); ("glob", handle_glob) ]
 
 let () =
   try while true do
